@@ -646,6 +646,9 @@ func (env *ExprEnv) findPkg(name string) *types.Package {
 
 func (env *ExprEnv) fieldOf(x TV, name string) TV {
 	v := env.v
+	if x.Ty != nil {
+		name = v.aliasName(x.Ty, name)
+	}
 	if x.Ty == nil {
 		fail("field %s of untyped value", name)
 	}
@@ -744,6 +747,33 @@ func (env *ExprEnv) tryField(x TV, name string) (tv TV, ok bool) {
 }
 
 // addrField: address (ref) of an embedded struct field, for x.f.g chains where f is a struct
+// aliasName: the ghost value view ".val" of go.uber.org/atomic integer types is their real field
+// "v", so that copies of such values (map elements, struct copies) carry it along.
+func (v *FV) aliasName(ty types.Type, name string) string {
+	if name != "val" {
+		return name
+	}
+	t := types.Unalias(ty)
+	if p, ok := t.Underlying().(*types.Pointer); ok {
+		t = p.Elem()
+	}
+	if !strings.HasPrefix(typeKey(t), "go.uber.org/atomic.") {
+		return name
+	}
+	su, ok := t.Underlying().(*types.Struct)
+	if !ok {
+		return name
+	}
+	for i := 0; i < su.NumFields(); i++ {
+		if su.Field(i).Name() == "v" {
+			if _, _, isInt := intInfo(su.Field(i).Type()); isInt {
+				return "v"
+			}
+		}
+	}
+	return name
+}
+
 func (v *FV) findGhost(ty types.Type, name string) *GhostField {
 	key := typeKey(ty)
 	for _, g := range v.eng.db.Ghosts[key] {
@@ -1213,6 +1243,13 @@ func (env *ExprEnv) call(e *ast.CallExpr) TV {
 		k := env.coerce(env.eval(e.Args[1]), mt.Key(), v.sortOf(mt.Key()))
 		dom, _ := v.mapArrays(mt)
 		return TV{T: fmt.Sprintf("(and (not (= %s 0)) (select %s %s))", m.T, v.rd(env.heapNow(), dom, m.T), k.T), Ty: types.Typ[types.Bool], Sort: "Bool"}
+	case "lastarg":
+		f := env.eval(e.Args[0])
+		if f.Sort != "Int" {
+			fail("lastarg() of a non-function value")
+		}
+		v.regArray("ARGV", fmt.Sprintf("(Array Int %s)", v.idx()))
+		return TV{T: v.rd(env.heapNow(), "ARGV", f.T), Ty: types.Typ[types.Int64], Sort: v.idx()}
 	case "calls", "lastnonnil":
 		// calls(f): number of invocations of function value f so far (ghost trace);
 		// calls(x.M) with x of interface type: invocations of method M on that value
